@@ -52,6 +52,9 @@ CFGS = {
     "tc4": dict(InitVals="ValsTc", EmLists="ListsTc", EvLists="EvListsTc", TimeLists="TimeListsTc", Times="TimesTc",
                 MinRs="{0}", MutRs="{0, 3}", MinDists="{0}", TlLists="NoLists", MinDurs="{0}", MaxDrops=16, MaxEms=8, MaxRefs=5, MaxEv=4,
                 MaxTcs=2, MaxTrks=0, MaxLen=3, Depth=4, Ops="OpsTc"),
+    "tcq": dict(InitVals="ValsTc", EmLists="ListsTc", EvLists="EvListsTcQ", TimeLists="TimeListsTcQ", Times="TimesTcQ",
+                MinRs="{0}", MutRs="{3}", MinDists="{0}", TlLists="NoLists", MinDurs="{0}", MaxDrops=16, MaxEms=8, MaxRefs=5, MaxEv=4,
+                MaxTcs=2, MaxTrks=0, MaxLen=3, Depth=4, Ops="OpsTc"),
     "tc5": dict(InitVals="ValsTc", EmLists="ListsTc", EvLists="EvListsTc", TimeLists="TimeListsTc", Times="TimesTc",
                 MinRs="{0}", MutRs="{3}", MinDists="{0}", TlLists="NoLists", MinDurs="{0}", MaxDrops=16, MaxEms=8, MaxRefs=5, MaxEv=4,
                 MaxTcs=2, MaxTrks=0, MaxLen=3, Depth=5, Ops="OpsTc"),
@@ -117,10 +120,10 @@ CFGS = {
                 MinRs="{0}", MutRs="{3}", MinDists="{0}", TlLists="TlListsA", MinDurs="{0}", MaxDrops=20, MaxEms=0, MaxRefs=5, MaxEv=0,
                 MaxTcs=0, MaxTrks=5, MaxLen=3, Depth=5, Ops="OpsTf"),
 }
-QUICK = ["em3", "df3", "tc4", "tr3", "tl3", "io3", "tkq", "tfq", "sysq", "pl3"]
+QUICK = ["em3", "df3", "tcq", "tr3", "tl3", "io3", "tkq", "tfq", "sysq", "pl3"]
 # em5 (every sequence of five emulsion operations: 3.8 GB of transitions, more than two hours of replay) and tk5 are defined
 # above but not part of the registered tier
-THOROUGH = ["em4", "df4", "tc5", "tr4", "tl4", "io4", "tk4", "tf4", "sys4"]
+THOROUGH = ["em4", "df4", "tc4", "tc5", "tr4", "tl4", "io4", "tk4", "tf4", "sys4"]
 
 
 def cfg_text(name: str, observe: str = "ObservePrint") -> str:
